@@ -13,17 +13,17 @@ import (
 func init() { register("C02", runC02) }
 
 type c02Case struct {
-	Input    string   `json:"input"` // the bytes handed to the decoders
-	Mutation string   `json:"mutation"`
-	InDomain bool     `json:"in_domain"`
-	IsTree   bool     `json:"is_tree"`
-	Typed    []Res    `json:"typed"`
-	Any      Res      `json:"any"`
-	ReTyped  []*Res   `json:"re_typed"`
-	ReAny    *Res     `json:"re_any"`
-	Panic    bool     `json:"panic"`
-	Unstable bool     `json:"unstable"`
-	Ws       *wsRes   `json:"ws,omitempty"` // what websocketTransport.Receive made of the same bytes (in a process of its own)
+	Input    string `json:"input"` // the bytes handed to the decoders
+	Mutation string `json:"mutation"`
+	InDomain bool   `json:"in_domain"`
+	IsTree   bool   `json:"is_tree"`
+	Typed    []Res  `json:"typed"`
+	Any      Res    `json:"any"`
+	ReTyped  []*Res `json:"re_typed"`
+	ReAny    *Res   `json:"re_any"`
+	Panic    bool   `json:"panic"`
+	Unstable bool   `json:"unstable"`
+	Ws       *wsRes `json:"ws,omitempty"` // what websocketTransport.Receive made of the same bytes (in a process of its own)
 	term     string
 	treeTerm string // "(Some (tree, uris))" for inputs in the model's reach, else None
 }
